@@ -62,7 +62,54 @@ KNOWN_CLASSES = {
     "negcycle_fp": lambda case, failure: gp.neg_on_cyclic_goal_under_active_cycle(case["prog"]),
 }
 
+# ------------------------------------------------------------------------------------------------ exhaustive family
+
+def _small_rules():
+    lits = [[False, "a", []], [False, "b", []], [False, "p", []], [False, "q", []], [True, "a", []], [True, "b", []]]
+    rules = []
+    for h in ("p", "q"):
+        for l1 in lits:
+            rules.append(["rule", [h, []], [l1]])
+            for l2 in lits:
+                rules.append(["rule", [h, []], [l1, l2]])
+    return rules
+
+
+def enumerate_small(tier):
+    """All propositional programs  0.3::a. 0.6::b.  + 1..3 distinct rules (heads p, q; bodies of 1-2 literals from
+    a, b, p, q, \\+a, \\+b; rules in a fixed canonical order) + query(p). query(q).   98 854 programs; the quick
+    tier takes every 40th."""
+    import itertools
+
+    rules = _small_rules()
+    base = [["pfact", "0.3", ["a", []]], ["pfact", "0.6", ["b", []]]]
+    tail = [["query", ["p", []], False], ["query", ["q", []], False]]
+    stride = 40 if tier == "quick" else 1
+    i = 0
+    for n in (1, 2, 3):
+        for combo in itertools.combinations(range(len(rules)), n):
+            if i % stride == 0:
+                yield {"prog": base + [rules[k] for k in combo] + tail}
+            i += 1
+
+
+def check_small(case):
+    # rules whose head predicate has no clause are fine (query on an undefined atom raises UnknownClause in
+    # ProbLog: make every queried predicate defined by adding a failing clause)
+    prog = list(case["prog"])
+    heads = set(s[1][0] for s in prog if s[0] == "rule")
+    for h in ("p", "q"):
+        if h not in heads:
+            prog.insert(2, ["rule", [h, []], [[False, "a", []], [True, "a", []]]])
+    return _check10({"prog": prog})
+
+
+_check10 = make_check(10)
+
 SUBCHECKS = [
-    SubCheck("default", make_check(10), strategy=_strategy, budget={"quick": 4000, "thorough": 60000},
+    SubCheck("default", _check10, strategy=_strategy, budget={"quick": 4000, "thorough": 60000},
              timeout={"quick": 5, "thorough": 20}, render=render),
+    SubCheck("small-exhaustive", check_small, enumerate=enumerate_small, exhaustive_tiers=("thorough",), timeout={"quick": 5, "thorough": 20},
+             exhaustive="all programs '0.3::a. 0.6::b.' + 1-3 rules (heads p,q; bodies of 1-2 literals over a,b,p,q,\\+a,\\+b) + "
+                        "query(p). query(q). - 98 854 programs (thorough); every 40th in the quick tier", render=render),
 ]
